@@ -22,6 +22,9 @@ Streams
      enum.values) between two validations + a cache reset (replace request / fresh Schema over the same objects): the
      second verdict is that of the CURRENT description, undo -> valid again. Interface fields there take enum /
      input-object / custom-scalar typed arguments. Verdicts of kept schema objects are repeated at the end (ctx.later).
+  K  resolver signatures against the calling convention `resolver(root, ctx, info, **arguments)`: random parameter lists
+     (positional-only, defaults, *args, keyword-only, **kwargs) x arguments whose names collide with parameter names;
+     the generated callables are REALLY CALLED with every admissible keyword set: reported iff some call does not bind
   J  interface vs implementing object: ALL pairs of type expressions with <= 3 wrappers over the same and over different
      named types, as argument types (must be EQUAL) and as field types (must be covariant); and in F: `==` / `!=` on all
      such pairs against structural equality, `is_subtype` on all pairs against the spec relation (exhaustive, no sampling)
@@ -54,6 +57,8 @@ ASSUMPTIONS = [
     "model follows the tree WITH proposed_fixes/C13-S4-S6.patch; on the unfixed tree the labelled injections "
     "`implements_object` (S4), `bad_name_input_field` (S6) and names with a trailing newline (S7) are reported as property failures",
     "`field.resolver = f` / `schema.default_resolver = f` assigned directly are outside the statement (not re-validated); not generated in histories",
+    "model and spec follow the tree WITH proposed_fixes C13-H7, C13-H1-H2-H3-H9, C13-H4-H5-H6, C13-H8 (each behind a flag re-extracted "
+    "from the source: the model stays exact on trees where only some are applied); on the unpatched tree the hunt findings are reported as property failures",
     "model follows the tree WITH proposed_fixes/C13-T3b.patch (refusals of _replace_types_and_directives before any mutation, directives bust the caches); "
     "what fix_type_references removes after a DELETION is taken from the live object (`healed`), not modelled",
 ]
@@ -61,6 +66,8 @@ TRUSTED = [
     "py2lean.py translation of Schema.is_subtype (isinstance(GraphQLAbstractType/ObjectType) and is_possible_type as parameters)",
     "inspect.signature (resolver signatures enter the model as data dumped with it)",
     "re._parser (character classes of VALID_NAME_RE)",
+    "the resolver-signature clauses (Lean `ResolverCompatible` / `ResolverViol`, Python `spec_resolver_rules_data`) are tied to Python's "
+    "call binding by REALLY CALLING the generated callables with every admissible keyword set (stream K and every code-built schema), not by a Lean proof",
     "message attribution: templates read from the source (static: literals reaching add_error through %, .format, local / "
     "module / class constants, literal sequences iterated by a for); when a message expression is not recognised (evidence key "
     "`extraction: dynamic`) the templates are LEARNED by running the real validator on 2x30 single-violation schemas "
@@ -76,9 +83,16 @@ LEXABLE_BAD = {"__x"}
 # building live schemas from generator descriptions
 # ---------------------------------------------------------------------------------------------
 
+NOT_CALLABLE = "!not-callable"
+
+
 def make_resolver(sig):
-    """A callable with exactly the parameter list `sig` (text)."""
-    return eval("lambda %s: None" % sig, {})
+    """A callable with exactly the parameter list `sig` (text); NOT_CALLABLE: a plain string object."""
+    if sig == NOT_CALLABLE:
+        return "not callable"
+    fn = eval("lambda %s: None" % sig, {})
+    fn._c13_generated = True        # safe to call: the semantic oracle really calls it
+    return fn
 
 
 def build_code(desc, order=None):
@@ -117,7 +131,8 @@ def build_code(desc, order=None):
     def field(f):
         return S.Field(f["name"], (lambda t=f["type"]: ty(t)), args=[arg(a, S.Argument) for a in f.get("args") or []],
                        deprecation_reason=f.get("deprecated"),
-                       resolver=resolver_of(f))
+                       resolver=resolver_of(f),
+                       subscription_resolver=make_resolver(f["subscription_resolver"]) if f.get("subscription_resolver") else None)
 
     for t in desc["types"]:
         k, n = t["kind"], t["name"]
@@ -313,7 +328,7 @@ def wf(t):
 # dump of the live schema. Output: multiset of rule ids that must be reported (all together).
 # ---------------------------------------------------------------------------------------------
 
-RESOLVER_RULES = {"resMissingParam", "resPosOnly", "resNeedsDefault", "resPositional", "resExtraRequired"}
+RESOLVER_RULES = {"resMissingParam", "resPosOnly", "resNeedsDefault", "resPositional", "resExtraRequired", "resCollides"}
 _NAME = None
 
 
@@ -323,30 +338,46 @@ def spec_valid_name(n):
 
 
 def spec_resolver_rules_data(args, params):
-    """as spec_resolver_rules, on dumped data (args of the dump, params = inspect.signature as data)"""
+    """Rules a resolver (parameters as data) breaks for a field with `args`, from the calling convention
+    `resolver(root, ctx, info, **arguments)`: the three values fill the first three positional parameters (or *args);
+    an argument reaches, by keyword, a positional-or-keyword parameter after those or a keyword-only one, else **kwargs;
+    arguments that may be absent need a parameter default; every parameter the call does not fill needs a default."""
+    var_kw = any(p["kind"] == "varKw" for p in params)
+    var_pos = any(p["kind"] == "varPos" for p in params)
+    positional = [p for p in params if p["kind"] in ("posOnly", "posOrKw")]
+    leading = [p["name"] for p in positional[:3]]
+    by_kw = {}
+    for p in params:
+        if p["kind"] in ("posOrKw", "kwOnly") and p["name"] not in leading:
+            by_kw.setdefault(p["name"], p)
     by_name = {}
     for p in params:
         by_name.setdefault(p["name"], p)
-    var_kw = any(p["kind"] == "varKw" for p in params)
-    var_pos = any(p["kind"] == "varPos" for p in params)
     out = Counter()
-    names = []
+    if not var_pos and len(positional) < 3:
+        out["resPositional"] += 1
+    provided = set()
     for a in args:
         n = a.get("python_name") or a["name"]
-        names.append(n)
-        p = by_name.get(n)
         required = a["type"]["k"] == "nonNull" and not a["has_default"]
+        p = by_kw.get(n)
         if p is None:
-            if not var_kw:
+            cl = by_name.get(n)
+            if cl is not None and cl["name"] in leading and cl["kind"] == "posOrKw":
+                out["resCollides"] += 1
+            elif cl is not None and cl["kind"] == "posOnly" and not var_kw:
+                out["resPosOnly"] += 1
+            elif not var_kw:
                 out["resMissingParam"] += 1
-        elif p["kind"] == "posOnly":
-            out["resPosOnly"] += 1
-        elif not p["has_default"] and not a["has_default"] and not required:
-            out["resNeedsDefault"] += 1
-    rest = [p for p in params if p["name"] not in names and p["kind"] not in ("varKw", "varPos")]
-    if not var_pos and len([p for p in rest if p["kind"] in ("posOnly", "posOrKw")]) < 3:
-        out["resPositional"] += 1
-    out["resExtraRequired"] += sum(1 for p in rest[3:] if not p["has_default"])
+        else:
+            provided.add(p["name"])
+            if not p["has_default"] and not a["has_default"] and not required:
+                out["resNeedsDefault"] += 1
+    for p in params:
+        if p["kind"] in ("varKw", "varPos") or p["name"] in leading or p["name"] in provided:
+            continue
+        if not p["has_default"]:
+            out["resExtraRequired"] += 1
     return +out
 
 
@@ -384,8 +415,8 @@ def spec_rules(d, rv=True):
             if not spec_valid_name(a["name"]):
                 out["invalidName"] += 1
             if a["name"] in pre:
-                out[dup] += 1          # a repeated name is reported as such and not examined further
-            elif not is_in(a["type"]):
+                out[dup] += 1          # a repeated name is a uniqueness violation AND the element is examined
+            if not is_in(a["type"]):
                 out[notin] += 1
             pre.append(a["name"])
 
@@ -398,13 +429,13 @@ def spec_rules(d, rv=True):
                 out["invalidName"] += 1
             if f["name"] in pre:
                 out["dupField"] += 1
-            else:
-                if not is_out(f["type"]):
-                    out["fieldNotOutput"] += 1
-                args(f["args"], "dupArg", "argNotInput")
-                r = f.get("resolver") or (t.get("default_resolver") if t["kind"] == "object" else None) or d.get("default_resolver")
-                if r and rv and not r.get("uninspectable"):
-                    out.update(spec_resolver_rules_data(f["args"], r["params"]))
+            if not is_out(f["type"]):
+                out["fieldNotOutput"] += 1
+            args(f["args"], "dupArg", "argNotInput")
+            r = f.get("resolver") or (t.get("default_resolver") if t["kind"] == "object" else None) or d.get("default_resolver")
+            for rr in (r, f.get("subscription_resolver")):
+                if rr and rv and not rr.get("uninspectable"):
+                    out.update(spec_resolver_rules_data(f["args"], rr["params"]))
             pre.append(f["name"])
 
     def impl(t, it):
@@ -412,9 +443,9 @@ def spec_rules(d, rv=True):
             of = last(t["fields"], f["name"])
             if of is None:
                 out["ifaceFieldMissing"] += 1
-            elif not sub(of["type"], f["type"]):
-                out["ifaceFieldType"] += 1
             else:
+                if not sub(of["type"], f["type"]):
+                    out["ifaceFieldType"] += 1
                 for a in f["args"]:
                     oa = last(of["args"], a["name"])
                     if oa is None:
@@ -422,7 +453,8 @@ def spec_rules(d, rv=True):
                     elif oa["type"] != a["type"]:
                         out["ifaceArgType"] += 1
                 for a in of["args"]:
-                    if last(f["args"], a["name"]) is None and a["type"]["k"] == "nonNull":
+                    # additional arguments "must not be required": non-null WITHOUT a default
+                    if last(f["args"], a["name"]) is None and a["type"]["k"] == "nonNull" and not a["has_default"]:
                         out["extraRequiredArg"] += 1
 
     if d["query"] is None:
@@ -432,8 +464,7 @@ def spec_rules(d, rv=True):
             out[rule] += 1
     for t in d["types"]:
         if not (t.get("builtin") or spec_valid_name(t["name"])):
-            out["invalidTypeName"] += 1      # the type is not examined further
-            continue
+            out["invalidTypeName"] += 1      # ... and the type is examined like any other
         k = t["kind"]
         if k in ("object", "interface"):
             fields(t)
@@ -472,7 +503,7 @@ def spec_rules(d, rv=True):
                     out["invalidName"] += 1
                 if f["name"] in pre:
                     out["dupField"] += 1
-                elif not is_in(f["type"]):
+                if not is_in(f["type"]):
                     out["inputFieldNotInput"] += 1
                 pre.append(f["name"])
     for dd in d["directives"]:
@@ -480,6 +511,41 @@ def spec_rules(d, rv=True):
             out["invalidName"] += 1
         args(dd["args"], "dirDupArg", "dirArgNotInput")
     return +out
+
+
+def uncallable_resolvers(schema):
+    """[(path, exception)] for generated resolver / subscription-resolver callables that some admissible call
+    `resolver(root, ctx, info, **arguments)` does not bind. None when the schema carries foreign callables."""
+    import itertools as it
+    from py_gql.schema import ObjectType, InterfaceType
+    bad = []
+    for t in schema.types.values():
+        if not isinstance(t, (ObjectType, InterfaceType)) or t.name.startswith("__"):
+            continue
+        for f in t.fields:
+            picked = f.resolver or (t.default_resolver if isinstance(t, ObjectType) else None) or schema.default_resolver
+            for fn in (picked, f.subscription_resolver):
+                if not fn:
+                    continue
+                if not getattr(fn, "_c13_generated", False):
+                    if callable(fn):
+                        return None
+                    continue                 # not callable at all: nothing to inspect (fix H9)
+                always = [a.python_name for a in f.arguments if a.required or a.has_default_value]
+                optional = [a.python_name for a in f.arguments if not (a.required or a.has_default_value)]
+                if len(set(always + optional)) != len(always + optional) or len(optional) > 6:
+                    return None
+                for k in range(len(optional) + 1):
+                    for sub in it.combinations(optional, k):
+                        try:
+                            fn(1, 2, 3, **{n: 1 for n in always + list(sub)})
+                        except TypeError as e:
+                            bad.append(("%s.%s" % (t.name, f.name), str(e)[:120]))
+                            break
+                    else:
+                        continue
+                    break
+    return bad
 
 # ---------------------------------------------------------------------------------------------
 # base schemas
@@ -551,6 +617,10 @@ def add_resolvers(rng, desc, p=0.4):
             for f in t["fields"]:
                 if rng.random() < p:
                     f["resolver"] = good_sig(rng, f)
+                if rng.random() < p / 4:
+                    f["subscription_resolver"] = good_sig(rng, f)
+                if rng.random() < 0.01:
+                    f["resolver"] = NOT_CALLABLE       # nothing to inspect: must not make validation raise
             if t["kind"] == "object" and rng.random() < 0.15:
                 t["default_resolver"] = rng.choice(["root, ctx, info, **kw", "*a, **kw"])
     if rng.random() < 0.1:
@@ -590,8 +660,9 @@ def _a(name, t, default=None):
 def _add_arg(f, a):
     """Add an argument; an explicit resolver of the field is replaced by one that accepts any keyword."""
     f["args"].append(a)
-    if f.get("resolver") is not None:
-        f["resolver"] = "root, ctx, info, **kw"
+    for key in ("resolver", "subscription_resolver"):
+        if f.get(key) is not None:
+            f[key] = "root, ctx, info, **kw"
 
 
 def _wrap(rng, n):
@@ -802,6 +873,12 @@ def _mk_injections():
         _add_arg(_of(d, pos[0], pos[2]), _a(fresh("xo"), ("list", ("nonNull", ("named", "Int")))))
         return None
 
+    @add("extra_nonnull_default_arg", lambda d: impl_fields(d))
+    def _(d, pos, rng):
+        # `Int! = 3` is non-null but NOT required (spec 3.6: additional arguments "must not be required")
+        _add_arg(_of(d, pos[0], pos[2]), _a(fresh("xd"), ("nonNull", ("named", "Int")), default="3"))
+        return None
+
     @add("union_member_kind", lambda d: [(u, k) for u in _composites(d, ("union",)) for k in ("scalar", "interface", "enum", "input", "union")], code_only=False)
     def _(d, pos, rng):
         n = _first(d, pos[1]) if pos[1] != "scalar" else rng.choice(["Int", _first(d, "scalar") or "String"])
@@ -897,13 +974,40 @@ def _mk_injections():
     def _(d, pos, rng):
         f = gs.desc_type(d, pos[0])["fields"][pos[1]]
         f["resolver"] = sig_with(f, two=True) + rng.choice(["", ", **kw"])
-        return "resPositional"
+        # with arguments the third positional value lands on the first argument's parameter: a collision
+        return "resCollides" if f.get("args") else "resPositional"
 
     @add("res_extra_required", lambda d: plain_fields(d), code_only=True)
     def _(d, pos, rng):
         f = gs.desc_type(d, pos[0])["fields"][pos[1]]
         f["resolver"] = sig_with(f, extra="zz_extra") + rng.choice(["", ", **kw"])
         return "resExtraRequired"
+
+    @add("res_subscription_bad", lambda d: plain_fields(d), code_only=True)
+    def _(d, pos, rng):
+        f = gs.desc_type(d, pos[0])["fields"][pos[1]]
+        f["subscription_resolver"] = sig_with(f, two=True)
+        return "resCollides" if f.get("args") else "resPositional"
+
+    @add("res_kwonly_required", lambda d: plain_fields(d), code_only=True)
+    def _(d, pos, rng):
+        f = gs.desc_type(d, pos[0])["fields"][pos[1]]
+        f["resolver"] = rng.choice(["*a, zz_kw, **kw", "root, *a, zz_kw", "root, ctx, *a, zz_kw, **kw"])
+        return "resExtraRequired"
+
+    @add("res_collides", lambda d: plain_fields(d), code_only=True)
+    def _(d, pos, rng):
+        f = gs.desc_type(d, pos[0])["fields"][pos[1]]
+        f["args"].append(_a(rng.choice(["root", "ctx", "info"]), ("named", "Int")))
+        f["resolver"] = rng.choice(["root, ctx, info, **kw", "root, ctx, info, *a, **kw"])
+        return "resCollides"
+
+    @add("res_var_named_kwargs_ok", lambda d: [p for p in plain_fields(d) if p[0] == "Query"], code_only=True)
+    def _(d, pos, rng):
+        f = gs.desc_type(d, pos[0])["fields"][pos[1]]
+        _add_arg(f, _a("kwargs", ("named", "Int")))
+        f["resolver"] = "root, ctx, info, **kwargs"
+        return None
 
     @add("res_type_default_bad", lambda d: [t["name"] for t in d["types"] if t["kind"] == "object" and t["name"] != "Query"
                                             and any(not f.get("resolver") for f in t["fields"])], code_only=True)
@@ -1211,6 +1315,21 @@ def check_schema(ctx, batch, schema, labels, how, info, desc=None):
         elif extra:
             ctx.fail("corr:spec-extra:%s" % "+".join(sorted(extra)), "errors reported beyond the violation instances of the schema",
                      dict(detail, expected_rules=sorted(want.items())), kind="correspondence")
+        # --- the resolver-signature rule is about CALLABILITY: reported iff some admissible call does not bind ----
+        unc = uncallable_resolvers(schema)
+        if unc is not None and bool(unc) != any(r in RESOLVER_RULES for r in rules):
+            kind_ = "accepts-uncallable" if unc else "rejects-callable"
+            res_rules = sorted(r for r in rules if r in RESOLVER_RULES)
+
+            def pred_c(s2, want_unc=bool(unc)):
+                u2 = uncallable_resolvers(s2)
+                v2, e2 = real_validate(s2)
+                return u2 is not None and bool(u2) == want_unc and any(r in RESOLVER_RULES for r, _ in e2) != want_unc
+            dd = shrunk(pred_c, ("callable", kind_))
+            ctx.fail("resolver-rule:%s%s" % (kind_, (":" + "+".join(res_rules)) if res_rules else ""),
+                     "the resolver-signature rule %s" % ("accepts a resolver that cannot be called with the declared arguments" if unc
+                                                         else "rejects a resolver that every admissible call binds"),
+                     dict(dd, uncallable=unc[:3] if unc else []))
         # --- public option enable_resolver_validation: True = default; False only drops the resolver rules -----
         for opt in (True, False):
             vo, eo = real_validate(schema, resolver_validation=opt)
@@ -1358,6 +1477,7 @@ def strip_resolvers(desc):
         t.pop("default_resolver", None)
         for f in t.get("fields") or []:
             f.pop("resolver", None)
+            f.pop("subscription_resolver", None)
     return d
 
 
@@ -1587,33 +1707,11 @@ def shape(a, b):
 # ---- G: one resolver callable shared by several fields ------------------------------------------
 
 def spec_resolver_rules(args, sig):
-    """Rules a resolver with parameter list `sig` breaks for a field with `args` — computed from the
-    calling convention `resolver(root, ctx, info, **coerced_args)` (independent of validation.py)."""
-    import inspect
-    params = list(inspect.signature(make_resolver(sig)).parameters.values())
-    P = inspect.Parameter
-    by_name = {p.name: p for p in params}
-    var_kw = any(p.kind is P.VAR_KEYWORD for p in params)
-    var_pos = any(p.kind is P.VAR_POSITIONAL for p in params)
-    out = Counter()
-    names = []
-    for a in args:
-        n = a.get("python_name") or a["name"]
-        names.append(n)
-        p = by_name.get(n)
-        required = a["type"][0] == "nonNull" and a.get("default") is None
-        if p is None:
-            if not var_kw:
-                out["resMissingParam"] += 1
-        elif p.kind is P.POSITIONAL_ONLY:
-            out["resPosOnly"] += 1
-        elif p.default is P.empty and a.get("default") is None and not required:
-            out["resNeedsDefault"] += 1      # the argument may be absent from the call
-    rest = [p for p in params if p.name not in names and p.kind not in (P.VAR_KEYWORD, P.VAR_POSITIONAL)]
-    if not var_pos and len([p for p in rest if p.kind in (P.POSITIONAL_ONLY, P.POSITIONAL_OR_KEYWORD)]) < 3:
-        out["resPositional"] += 1
-    out["resExtraRequired"] += sum(1 for p in rest[3:] if p.default is P.empty)
-    return +out
+    """Rules a resolver with parameter list `sig` breaks for a field with `args` (gen format)."""
+    params = canon_schema.dump_resolver(make_resolver(sig))["params"]
+    data = [{"name": a["name"], "python_name": a.get("python_name") or a["name"], "type": gs.ty_json(a["type"]),
+             "has_default": a.get("default") is not None} for a in args]
+    return spec_resolver_rules_data(data, params)
 
 
 SHARED_ARG_VARIANTS = [
@@ -1658,8 +1756,8 @@ def stream_shared_resolvers(ctx, batch):
     combos = [(a, b) for a in SHARED_ARG_VARIANTS for b in SHARED_ARG_VARIANTS if a[0] != b[0]]
     triples = [tuple(rng.sample(SHARED_ARG_VARIANTS, 3)) for _ in range(ctx.n(10, 60))]
     cases = [(c, sig, st) for c in combos + triples for sig in SHARED_SIGS for st in (False, True)]
-    if len(cases) > ctx.n(260, 2400):
-        cases = rng.sample(cases, ctx.n(260, 2400))
+    if len(cases) > ctx.n(90, 1200):
+        cases = rng.sample(cases, ctx.n(90, 1200))
     done = 0
     for variants, sig, same_type in cases:
         if ctx.time_left() < 15:
@@ -2120,6 +2218,75 @@ def stream_wrapper_pairs(ctx, batch):
                               "interface_type": gs.ty_str(ta), "object_type": gs.ty_str(tb)})
     ctx.extra["wrapper_pair_cases"] = done
 
+
+# ---- K: resolver signatures against the calling convention ------------------------------------------------
+
+K_NAMES = ["root", "ctx", "info", "x", "y", "args", "kwargs", "z"]
+
+
+def gen_signature(rng):
+    """A random parameter list: positional (with `/`, defaults), *name or bare *, keyword-only, **name — names from a
+    pool that contains the usual parameter names AND the argument names, so that collisions occur."""
+    n = rng.randint(0, 5)
+    names = rng.sample(K_NAMES, min(n + rng.randint(0, 2), len(K_NAMES)))
+    pos, rest = names[:n], names[n:]
+    parts = []
+    slash = rng.randint(1, len(pos)) if pos and rng.random() < 0.25 else None
+    ndef = rng.randint(0, len(pos)) if rng.random() < 0.5 else 0
+    for i, p in enumerate(pos):
+        parts.append(p + ("=None" if i >= len(pos) - ndef else ""))
+        if slash is not None and i + 1 == slash:
+            parts.append("/")
+    star = None
+    if rng.random() < 0.3:
+        star = rest.pop() if rest and rng.random() < 0.7 else "va"
+        parts.append("*" + star)
+    if rest and rng.random() < 0.4:
+        k = rest[:rng.randint(1, len(rest))]
+        rest = rest[len(k):]
+        if star is None:
+            parts.append("*")
+        parts += [q + ("=None" if rng.random() < 0.5 else "") for q in k]
+    if rng.random() < 0.4:
+        parts.append("**" + (rest.pop() if rest and rng.random() < 0.5 else "vk"))
+    return ", ".join(parts)
+
+
+def stream_resolver_signatures(ctx, batch):
+    """Random signatures x 0-3 arguments (required / optional / defaulted) whose names are drawn from the same pool as
+    the parameter names (collisions with the leading positional parameters, with *args / **kwargs names, keyword-only
+    and positional-only parameters). Oracles in check_schema: reported iff some admissible call does not bind
+    (the generated callable is really called), the precise clauses (`spec_rules`), the model."""
+    rng = ctx.rng
+    done = 0
+    for i in range(ctx.n(260, 2500)):
+        if ctx.time_left() < 12:
+            break
+        sig = gen_signature(rng)
+        try:
+            make_resolver(sig)
+        except SyntaxError:
+            continue
+        args = []
+        for a in rng.sample(["x", "y", "info", "root", "args", "kwargs", "z", "ctx"], rng.randint(0, 3)):
+            mode = rng.choice(["req", "opt", "dflt"])
+            args.append(_a(a, ("nonNull", ("named", "Int")) if mode == "req" else ("named", "Int"), default="1" if mode == "dflt" else None))
+        where = rng.choice(["resolver", "resolver", "subscription_resolver", "default_resolver"])
+        fld = _f("f", ("named", "Int"), args)
+        q = {"kind": "object", "name": "Query", "desc": None, "interfaces": [], "fields": [fld]}
+        if where == "default_resolver":
+            q["default_resolver"] = sig
+        else:
+            fld[where] = sig
+        d = {"types": [q], "directives": [], "query": "Query", "mutation": None, "subscription": None}
+        s = try_build(ctx, build_code, d)
+        if s is None:
+            continue
+        done += 1
+        ctx.stat("signature:" + where)
+        check_schema(ctx, batch, s, None, "code", {"stream": "signatures", "sig": sig}, desc=d)
+    ctx.extra["signature_cases"] = done
+
 # ---- E: cache histories -------------------------------------------------------------------------
 
 def gen_history(rng, desc, length):
@@ -2401,6 +2568,7 @@ def run(ctx):
     stream_subtype_and_names(ctx, batch)
     stream_wrapper_pairs(ctx, batch)
     stream_shared_resolvers(ctx, batch)
+    stream_resolver_signatures(ctx, batch)
     stream_compound(ctx, batch)
     stream_derived(ctx, batch)
     stream_setter_edits(ctx, batch)
@@ -2560,6 +2728,9 @@ def replay(ctx, data):
     dmp = dump(s)
     want = spec_rules(dmp, True)
     if (want - rules) or (not want and rules):
+        return False
+    unc = uncallable_resolvers(s)
+    if unc is not None and bool(unc) != any(r in RESOLVER_RULES for r in rules):
         return False
     for opt in (True, False):
         vo, eo = real_validate(s, resolver_validation=opt)
